@@ -6,7 +6,9 @@ package govcrt
 
 import (
 	"encoding/json"
+	"errors"
 	"fmt"
+	"io"
 	"math/big"
 	"os"
 	"reflect"
@@ -31,6 +33,10 @@ type ReplayFile struct {
 	Ensures    []string          `json:"ensures"`
 	PanicsWhen []string          `json:"panics_when,omitempty"`
 	SpecFuncs  []SpecFuncJ       `json:"spec_funcs,omitempty"`
+	Views      []ViewJ           `json:"views,omitempty"`
+	Invs       []ViewJ           `json:"type_invariants,omitempty"` // Fn == "", Body = invariant over "this"
+	Aliases    map[string]string `json:"aliases,omitempty"` // extra name -> parameter name (interface contract names)
+	ResAliases map[string]int    `json:"result_aliases,omitempty"`
 	Results    []string          `json:"result_names"`
 	SolverOut  string            `json:"solver_output,omitempty"`
 	Solver     string            `json:"solver,omitempty"`
@@ -67,6 +73,23 @@ type Stub struct {
 	Bits string `json:"bits"` // "0101..."
 	Cur  int64  `json:"cursor"`
 }
+
+// ViewJ: a view clause of a type spec: Fn(this, params...) = Body for receivers of type Type.
+type ViewJ struct {
+	Type   string   `json:"type"` // short type name, e.g. SectionReader
+	Fn     string   `json:"fn"`
+	Params []string `json:"params"`
+	Body   string   `json:"body"`
+}
+
+type stubInfo struct {
+	s   *Stub
+	pre bool
+}
+
+var stubs = map[uintptr]*stubInfo{}
+var viewDefs []ViewJ
+var invDefs []ViewJ
 
 type SpecFuncJ struct {
 	Name   string   `json:"name"`
@@ -613,7 +636,54 @@ func (env *Env) call(e *Expr) any {
 			return false
 		}
 		return v.V>>(7-uint(k))&1 == 1
-	case "disjoint", "fresh", "existing", "valid", "sameslice":
+	case "valid":
+		a := arg(0)
+		rv, p, ok := ptrOf(a)
+		if !ok {
+			return false // nil
+		}
+		if _, isStub := stubs[p]; isStub {
+			return true
+		}
+		tn := rv.Type().Elem().Name()
+		found := false
+		for _, iv := range invDefs {
+			if iv.Type != tn {
+				continue
+			}
+			found = true
+			body, err := ParseExpr(iv.Body)
+			if err != nil {
+				unk("invariant of %s: %v", tn, err)
+			}
+			sub := &Env{names: map[string]any{"this": a}, old: env.old, funcs: env.funcs, fexpr: env.fexpr}
+			if !asBool(sub.Eval(body)) {
+				return false
+			}
+		}
+		if !found {
+			unk("valid() of type %s without invariants", tn)
+		}
+		return true
+	case "disjoint":
+		a, b := deref2(arg(0)), deref2(arg(1))
+		if a.Len() == 0 || b.Len() == 0 || a.Cap() == 0 || b.Cap() == 0 {
+			return true
+		}
+		pa, pb := a.Pointer(), b.Pointer()
+		sz := uintptr(a.Type().Elem().Size())
+		return pa+uintptr(a.Cap())*sz <= pb || pb+uintptr(b.Cap())*sz <= pa
+	case "isEOF":
+		a := arg(0)
+		rv, ok := a.(reflect.Value)
+		if !ok || !rv.IsValid() || (rv.Kind() == reflect.Interface && rv.IsNil()) {
+			return false
+		}
+		if err, ok := rv.Interface().(error); ok {
+			return errorsIsEOF(err)
+		}
+		return false
+	case "fresh", "existing", "sameslice", "arr":
 		unk("%s is not evaluated at run time", e.Name)
 	}
 	if sf, ok := env.funcs[e.Name]; ok {
@@ -635,6 +705,9 @@ func (env *Env) call(e *Expr) any {
 		}
 		return sub.Eval(body)
 	}
+	if r, ok := env.view(e); ok {
+		return r
+	}
 	if v, ok := env.names["$view:"+e.Name]; ok {
 		f := v.(func(args []any) any)
 		var as []any
@@ -645,6 +718,87 @@ func (env *Env) call(e *Expr) any {
 	}
 	unk("function %s is not evaluated at run time", e.Name)
 	return nil
+}
+
+func errorsIsEOF(err error) bool { return errors.Is(err, io.EOF) }
+
+func ptrOf(a any) (reflect.Value, uintptr, bool) {
+	rv, ok := a.(reflect.Value)
+	if !ok {
+		return rv, 0, false
+	}
+	for rv.Kind() == reflect.Interface {
+		if rv.IsNil() {
+			return rv, 0, false
+		}
+		rv = rv.Elem()
+	}
+	if rv.Kind() != reflect.Ptr || rv.IsNil() {
+		return rv, 0, false
+	}
+	return rv, rv.Pointer(), true
+}
+
+func (env *Env) view(e *Expr) (any, bool) {
+	isView := e.Name == "RLen" || e.Name == "RBit" || e.Name == "cursor"
+	for _, v := range viewDefs {
+		if v.Fn == e.Name {
+			isView = true
+		}
+	}
+	if !isView || len(e.Args) == 0 {
+		return nil, false
+	}
+	a := env.Eval(e.Args[0])
+	rv, p, ok := ptrOf(a)
+	if !ok {
+		unk("view %s of a non-pointer", e.Name)
+	}
+	if si, ok := stubs[p]; ok {
+		switch e.Name {
+		case "RLen":
+			return big.NewInt(int64(len(si.s.Bits))), true
+		case "RBit":
+			i := asBig(env.Eval(e.Args[1])).Int64()
+			if i < 0 || i >= int64(len(si.s.Bits)) {
+				unk("RBit outside the stub source")
+			}
+			return si.s.Bits[i] == '1', true
+		case "cursor":
+			if si.pre {
+				return big.NewInt(si.s.Cur), true
+			}
+			m := rv.MethodByName("SeekBits")
+			if !m.IsValid() {
+				unk("stub has no SeekBits")
+			}
+			out := m.Call([]reflect.Value{reflect.ValueOf(int64(0)), reflect.ValueOf(1)})
+			return big.NewInt(out[0].Int()), true
+		}
+	}
+	tn := rv.Type().Elem().Name()
+	for _, v := range viewDefs {
+		if v.Fn == e.Name && v.Type == tn && len(v.Params) == len(e.Args) {
+			sub := &Env{names: map[string]any{}, old: env.old, funcs: env.funcs, fexpr: env.fexpr}
+			sub.names[v.Params[0]] = a
+			for i := 1; i < len(e.Args); i++ {
+				sub.names[v.Params[i]] = env.Eval(e.Args[i])
+			}
+			key := "view:" + tn + "." + e.Name
+			body := env.fexpr[key]
+			if body == nil {
+				var err error
+				body, err = ParseExpr(v.Body)
+				if err != nil {
+					unk("view %s: %v", key, err)
+				}
+				env.fexpr[key] = body
+			}
+			return sub.Eval(body), true
+		}
+	}
+	unk("no view %s for type %s", e.Name, tn)
+	return nil, false
 }
 
 func deref2(a any) reflect.Value {
@@ -765,6 +919,9 @@ func (b *builder) build(j *JVal, t reflect.Type) reflect.Value {
 		if j.Stub != nil && StubFactory != nil {
 			if sv, ok := StubFactory(j.Stub, t); ok {
 				v.Set(sv)
+				if sv.Kind() == reflect.Ptr {
+					stubs[sv.Pointer()] = &stubInfo{s: j.Stub}
+				}
 				return v
 			}
 		}
@@ -795,7 +952,17 @@ func deepCopy(v reflect.Value, seen map[uintptr]reflect.Value) reflect.Value {
 		}
 		c := reflect.New(v.Type().Elem())
 		seen[v.Pointer()] = c
+		if si, ok := stubs[v.Pointer()]; ok {
+			stubs[c.Pointer()] = &stubInfo{s: si.s, pre: true}
+		}
 		c.Elem().Set(deepCopy(v.Elem(), seen))
+		return c
+	case reflect.Interface:
+		if v.IsNil() {
+			return v
+		}
+		c := reflect.New(v.Type()).Elem()
+		c.Set(deepCopy(v.Elem(), seen))
 		return c
 	case reflect.Struct:
 		c := reflect.New(v.Type()).Elem()
@@ -867,12 +1034,19 @@ func Run(path string, target any) {
 	for i := range rf.SpecFuncs {
 		funcs[rf.SpecFuncs[i].Name] = &rf.SpecFuncs[i]
 	}
+	viewDefs = rf.Views
+	invDefs = rf.Invs
 	pre := &Env{names: map[string]any{}, funcs: funcs, fexpr: map[string]*Expr{}}
 	seen := map[uintptr]reflect.Value{}
 	for i, p := range rf.Params {
 		pre.names[p.Name] = fromReflect(deepCopy(args[i], seen))
 		if i == 0 {
 			pre.names["this"] = pre.names[p.Name]
+		}
+	}
+	for al, pn := range rf.Aliases {
+		if v, ok := pre.names[pn]; ok {
+			pre.names[al] = v
 		}
 	}
 	evalClause := func(env *Env, text string) (ok bool, known bool, why string) {
@@ -936,6 +1110,16 @@ func Run(path string, target any) {
 		}
 		if len(results) == 1 {
 			post.names["result"] = fromReflect(r)
+		}
+	}
+	for al, pn := range rf.Aliases {
+		if v, ok := post.names[pn]; ok {
+			post.names[al] = v
+		}
+	}
+	for al, ri := range rf.ResAliases {
+		if ri < len(results) {
+			post.names[al] = fromReflect(results[ri])
 		}
 	}
 	unknowns := 0
